@@ -4,6 +4,6 @@ EXTENDS Checkpointer, Json
 UEmitted == {k \in Emitted : k.s > 0 \/ k.t > 0}
 (* a Before-chain mixing the three forms:  1 < 3:1 < 3:2 < 2::3 ... picked so that consecutive ones are ordered *)
 UChain == {Mk(0,0,1), Mk(0,0,2), Mk(0,3,1), Mk(0,3,2), Mk(0,0,3), Mk(1,0,3)}
-USmall == {Mk(0,0,1), Mk(0,2,1), Mk(0,0,2), Mk(1,0,2)}
+USmall == {Mk(0,2,1), Mk(0,0,2), Mk(1,0,2)}
 BehaviourExport == (Len(hist) = MaxSteps) => PrintT(<<"BEH", ToJson([th |-> threshold, steps |-> hist])>>)
 =============================================================================
